@@ -238,7 +238,9 @@ pub fn suspicious(fsj: &Value) -> bool {
             continue;
         }
         let hunks = band["hunks"].as_array().cloned().unwrap_or_default();
-        if band["tc"].as_i64().unwrap_or(-1) != hunks.len() as i64 {
+        // (a tail without a count is an old release's: nothing to compare)
+        let tc = band["tc"].as_i64().unwrap_or(-1);
+        if tc != -1 && tc != hunks.len() as i64 {
             return true;
         }
         for h in hunks {
